@@ -5,6 +5,7 @@ import os
 from harness.common import facts as F
 from harness.common import build
 from . import factsx
+from . import apps
 
 ID = 'C19'
 HERE = os.path.dirname(os.path.abspath(__file__))
@@ -39,7 +40,10 @@ LEVEL_TEXT = ('Machine-checked theorems for all texts, classes of the regenerate
               'JSON body reads back (reference RFC 8259 reader) to message/code/title with the text verbatim; the content type '
               'is that of the first acceptable offer, else text/plain. The model is tied to the code by shape pins, regenerated '
               'choices/literals and a differential run of the extracted model against the real exceptions and Router.')
-LEVEL_NOTE = ('Trusted: Coq kernel; hand-written model (validated by correspondence, shape-pinned); Python harness; '
+LEVEL_NOTE = ('Outside the property by WebOb design (documented behaviour of webob.html_escape): a detail/comment/value '
+              'object with an __html__ method is inserted as its __html__() result, unescaped -- such objects are markup '
+              'supplied by the developer, not request-derived text, and are neither modelled nor generated. '
+              'Trusted: Coq kernel; hand-written model (validated by correspondence, shape-pinned); Python harness; '
               'string.Template/html.escape/json.dumps/UTF-8/WebOb modelled or taken as oracle and validated, not verified.')
 
 _cache = {}
@@ -53,7 +57,7 @@ def _table(src=None):
         classes = factsx.class_table(mod.tree, probs)
         pf = factsx.prepare_facts(mod, probs)
         _cache[src] = {'classes': {e['name']: e for e in classes}, 'order': [e['name'] for e in classes],
-                       'offers': pf['offers']}
+                       'offers': pf['offers'], 'formats': factsx.raiser_formats(src, probs)}
     return _cache[src]
 
 
@@ -237,7 +241,8 @@ def generate(rng, tier, n):
             yield sweep_case(start, 256, rng.choice(['text/html', 'application/json', 'text/html']))
             produced += 1
     while produced < n:
-        yield gen_router(rng) if rng.random() < 0.2 else gen_direct(rng)
+        r = rng.random()
+        yield gen_router(rng) if r < 0.15 else apps.gen_case(rng, gen_text, gen_accept) if r < 0.3 else gen_direct(rng)
         produced += 1
 
 
@@ -247,6 +252,8 @@ def _is_opt_str(x):
 
 def valid(case):
     try:
+        if case.get('via') == 'app':
+            return apps.valid(case)
         if case.get('via') == 'router':
             if not (isinstance(case['path'], str) and _is_opt_str(case['accept'])):
                 return False
@@ -300,6 +307,11 @@ def oracle_path_info(path):
 
 
 def to_wire(case):
+    if case['via'] == 'app':
+        cls, detail, loc = apps.expected(case, _table()['formats'])
+        acc = case['accept']
+        return [cls, _opt(detail), None, None, loc, [], apps.environ_of(case), None,
+                oracle_offers('' if acc is None else acc)]
     if case['via'] == 'router':
         acc = case['accept']
         return ['HTTPNotFound', [oracle_path_info(case['path'])], None, None, '', [], [], None,
@@ -337,6 +349,7 @@ def setup(tier):
     cfg = Configurator()
     cfg.commit()
     _impl['app'] = cfg.make_wsgi_app()
+    _impl['app2'] = apps.build_app()
 
 
 def _collect(app, environ):
@@ -373,6 +386,8 @@ def _collect(app, environ):
 def run_impl(case):
     if not _impl:
         setup('quick')
+    if case['via'] == 'app':
+        return _collect(_impl['app2'], dict(map(tuple, apps.environ_of(case))))
     if case['via'] == 'router':
         env = dict(map(tuple, BASE_ENV))
         env['PATH_INFO'] = case['path'].encode('utf-8').decode('latin-1')
@@ -399,6 +414,8 @@ def run_impl(case):
 
 # ------------------------------------------------------------ judging
 def _supplied(case):
+    if case['via'] == 'app':
+        return [t for t in (case['path'], case['query'], case['script']) if t]
     if case['via'] == 'router':
         return [case['path']]
     out = [case['detail'], case['comment'], case['explanation'], case['location']]
@@ -425,7 +442,7 @@ def spec_holds(case, obs, spec):
     if ctype != want_type:
         return False
     if ctype == 'text/html':
-        if case['via'] == 'router' or case.get('body_template') is None:
+        if case['via'] in ('router', 'app') or case.get('body_template') is None:
             if '<zq7' in body:
                 return False
     elif ctype == 'application/json':
@@ -435,8 +452,11 @@ def spec_holds(case, obs, spec):
             return False
         if sorted(j) != ['code', 'message', 'title'] or j['code'] != status:
             return False
-        d = case['path'] if case['via'] == 'router' else case['detail']
-        plain_default = case['via'] == 'router' or (case['body_template'] is None
+        if case['via'] == 'app':
+            d = apps.expected(case, _table()['formats'])[1]
+        else:
+            d = case['path'] if case['via'] == 'router' else case['detail']
+        plain_default = case['via'] in ('router', 'app') or (case['body_template'] is None
                                                     and not any(k.lower() == 'detail' for k, v in case['headers'])
                                                     and not any(k == 'detail' for k, v in case['environ']))
         if d and plain_default and not any(0xd800 <= ord(c) < 0xe000 for c in d) and d not in j['message']:
@@ -456,7 +476,10 @@ def _interesting(t):
 
 
 def nontrivial(case, obs):
-    return obs[0] == 'OK' and obs[4] != '' and any(_interesting(t) for t in _supplied(case))
+    texts = _supplied(case)
+    if case['via'] == 'app':
+        texts = texts + [apps.expected(case, _table()['formats'])[1] or '']
+    return obs[0] == 'OK' and obs[4] != '' and any(_interesting(t) for t in texts)
 
 
 def kinds(case, obs):
@@ -465,7 +488,11 @@ def kinds(case, obs):
         k.append('type-' + (obs[2] or 'none'))
     else:
         k.append('exc-' + str(obs[1]))
-    if case['via'] == 'router':
+    if case['via'] == 'app':
+        acc = case['accept']
+        k.append('app-' + case['kind'])
+        texts = _supplied(case) + [apps.expected(case, _table()['formats'])[1] or '']
+    elif case['via'] == 'router':
         acc = case['accept']
         texts = [case['path']]
     else:
@@ -530,6 +557,13 @@ def _str_shrinks(t):
 
 
 def shrinks(case):
+    if case.get('via') == 'app':
+        if case['accept'] not in (None, 'text/html'):
+            yield dict(case, accept='text/html')
+        for f in ('query', 'script', 'path'):
+            for t in _str_shrinks(case[f]):
+                yield dict(case, **{f: t})
+        return
     if case.get('via') == 'router':
         if case['accept'] not in (None, 'text/html'):
             yield dict(case, accept='text/html')
@@ -593,6 +627,12 @@ def targeted(broken, disagreements, rng):
     for acc in ['text/html', 'application/json', 'text/plain', None]:
         for t in NASTY:
             out.append({'via': 'router', 'path': '/' + t, 'accept': acc})
+    for kind, path in ([('static-missing', '/static/zz<b>${br}'), ('static-oob', '/static/zz<b>\x00'),
+                        ('static-slash', '/static/sub')] + [('pm-multi', '/' + n) for n in apps.PM_NAMES]
+                       + [('pm-single', '/' + n) for n, _ in apps.PS_NAMES] + [('forbidden', '/' + n) for n, _ in apps.FB_NAMES]):
+        for acc in ['text/html', 'application/json', 'text/plain']:
+            for q in ['', 'x=<script>&y=${br}"\'']:
+                out.append({'via': 'app', 'kind': kind, 'path': path, 'query': q, 'script': '', 'accept': acc})
     for d in disagreements[:20]:
         out.append(d['case'])
     return [c for c in out if valid(c)]
